@@ -153,6 +153,10 @@ class TransmissionModel(SimpleForwardModel):
         integral = np.sum((pradius+ap)*(1.0-tau)*_dz*2.0, axis=0)
         return ((pradius**2.0) + integral)/(sradius**2), tau
 
+    def write(self, output):
+        model = super().write(output)
+        model.write_scalar('new_path_method', bool(self.new_method))
+        return model
 
     @classmethod
     def input_keywords(self):
